@@ -42,7 +42,10 @@ StepFailing(g, n, ob, stb, sta) ==
         \cup (IF sta.xc /\ ~(ob.lctrl_exact /\ ob.lctrl = K3(sta.lctrl)) THEN {<<n, s.k, "last_control_point">>} ELSE {})
         \* after an arc the last control point lies behind the end point (chord direction); this is
         \* what smooth continuations and turn() rely on
+        \* (with a tolerance as large as the arc's smaller radius the last chord may span any angle
+        \* and says nothing about the end tangent: the clause is claimed for tolerance < radius)
         \cup (IF s.k \in {"arc", "turn"} /\ o.finite /\ ~ob.ctrl_behind
+              /\ (g.tol >= 1 \/ (g.tol = 0 /\ (IF s.k = "arc" THEN (IF s.rx < s.ry THEN s.rx ELSE s.ry) ELSE s.r) > 1))
               THEN {<<n, s.k, "last_control_not_behind_end_point">>} ELSE {})
 
 CurveFailing(ev) ==
